@@ -137,7 +137,8 @@ class X12Base(object):
                 #    % (self.hl_count, seg[1])
                 err_str = 'My HL count {:d} does not match your HL count {}'.format(self.hl_count, hl_count)
                 self._seg_error('HL1', err_str)
-            if seg_data.get_value('HL02') != '':
+            # an HL that ends before HL02 has an empty HL02 like any other
+            if seg_data.get_value('HL02'):
                 hl_parent = self._int(seg_data.get_value('HL02'))
                 if hl_parent not in self.hl_stack:
                     err_str = 'HL parent ({}) is not a valid parent'.format(seg_data.get_value('HL02'))
